@@ -8,6 +8,9 @@ import RjModel.Lemmas.FilteredListing
 import RjModel.Lemmas.DoerLemmas
 import RjModel.Lemmas.ComposeLemmas
 import RjModel.Lemmas.PlanBridge
+import RjModel.Generated.DeleteCmd
+import RjModel.Generated.ConfirmShape
+import RjModel.Model.ConfirmShape
 /-! # C01 — a successful sync makes the destination a mirror of the source
 
 What is proved (for every tree pair, arrival order and poll schedule):
@@ -634,5 +637,43 @@ example :
       = some ((planDel src ld).map (delCmdOf (fun _ => .unknown))) ∧
     (prun ⟨true, false⟩ PState.init evs).map (fun s => s.cpy.iter.map (·.1)) = some ((planCpy dst ls).map (fun x => pathStr x.1)) := by
   decide
+
+/-- **The deletion command is the sources'**: the command `delete_dest_entry` builds for a destination entry (translated from boss_sync.rs on every run:
+the `match` on the entry's kind, statistics updates dropped, `Command::DeleteFile / DeleteFolder / DeleteSymlink` with the path and the link's kind) is the
+model's `deleteCmd`; the same extractor checks that the command is sent to the destination, once, and only outside a dry run. -/
+theorem C01_delete_command_is_the_sources : Generated.deleteCmdTranslated = true ∧ ∀ p d, Generated.deleteCmdSrc p d = deleteCmd p d := by
+  refine ⟨by decide, ?_⟩
+  intro p d; cases d <;> rfl
+
+
+/-- **`copy_entry` (one creation command per source entry, to the destination, outside a dry run) still has the shape the model was written against** - a pin like `C03_confirm_actions_shape`: the normalised text extracted on every run
+equals the copy kept in `Model/ConfirmShape.lean`. -/
+theorem C01_copy_entry_shape : Generated.copyEntryShape = copyEntryShapeRef := by rfl
+
+
+/-- **The same, said of the functions as they are written today**: feed the arrivals through the functions *translated from boss_sync.rs on this run*
+(`process_src_entry` / `process_dest_entry`: `C13.prunSrc`) and spell the deletions with the translated `delete_dest_entry` - the two command lists are
+the plan's.  (`C01_boss_lists_are_the_plan` through `C13_translated_run_is_prun` and `C01_delete_command_is_the_sources`.) -/
+theorem C01_translated_lists_are_the_plan (ks kd : SymKind) (ls : List (FPath × SEntry)) (ld : List (FPath × Node))
+    (src : FPath → Option SEntry) (dst : FPath → Option Node) (evs : List Ev)
+    (files : List (String × FileScript)) (parts : FPath → List (List UInt8) × List UInt8)
+    (hes : srcOf evs = ls.map (fun x => (pathStr x.1, dOfSEntry ks x.2)))
+    (hed : dstOf evs = ld.map (fun x => (pathStr x.1, dOfNode kd x.2)))
+    (hgs : ∀ x ∈ ls, GoodPath x.1) (hgd : ∀ x ∈ ld, GoodPath x.1)
+    (hns : (ls.map (·.1)).Nodup) (hnd : (ld.map (·.1)).Nodup)
+    (hsp : ∀ x ∈ ld, x.2 ≠ .special) (hm : ∀ x ∈ ls, ∀ b m, x.2 = .file b m → 0 ≤ m)
+    (hs1 : ∀ x ∈ ls, src x.1 = some x.2) (hs2 : ∀ p e, src p = some e → (p, e) ∈ ls)
+    (hd1 : ∀ x ∈ ld, dst x.1 = some x.2) (hd2 : ∀ p n, dst p = some n → (p, n) ∈ ld)
+    (hfiles : ∀ x ∈ ls, ∀ b m, x.2 = .file b m →
+      C11.consumed (fileScript files (pathStr x.1)) = (parts x.1).1.map (fun c => (c, true)) ++ [((parts x.1).2, false)]) :
+    ∃ s, C13.prunSrc ⟨true, false⟩ PState.init evs = some s ∧
+      s.del.reverseOrder.iter.map (fun it => Generated.deleteCmdSrc it.1 it.2.1) = (planDel src ld).map (delCmdOf (fun _ => kd)) ∧
+      s.cpy.iter.flatMap (fun it => copyCmds files it.1 it.2.1) = (planCpy dst ls).flatMap (cpyCmdsOf (fun _ => ks) parts) := by
+  obtain ⟨s, h1, h2, h3⟩ := C01_boss_lists_are_the_plan ks kd ls ld src dst evs files parts hes hed hgs hgd hns hnd hsp hm hs1 hs2 hd1 hd2 hfiles
+  refine ⟨s, by rw [C13.C13_translated_run_is_prun]; exact h1, ?_, h3⟩
+  have : (fun it : String × (Details × DelReason) => Generated.deleteCmdSrc it.1 it.2.1) = (fun it => deleteCmd it.1 it.2.1) := by
+    funext it; exact C01_delete_command_is_the_sources.2 _ _
+  rw [this]; exact h2
+
 
 end Rj.C01
